@@ -248,6 +248,28 @@ def run_case(case):
                 exp = 2 * pinball(y, f, q).mean()
                 if abs(sc - exp) > 1e-12 * max(1.0, abs(exp)):
                     bad("score != 2 * mean pinball loss", cond, "score %r expected %r %s" % (sc, exp, desc))
+    # flags given as NumPy bools / integers (ParameterGrid over an array, a comparison result): true is true, false is false
+    for ys in case["ys"][:1]:
+        y = numpy.array(ys, dtype=numpy.float64) + numpy.array(JIT[:n]) + 5.0          # a quantile line that misses the origin
+        for q in (0.25, 0.75):
+            for fi, pos in ((numpy.bool_(True), False), (1, False), (numpy.bool_(False), False), (0, False), (True, numpy.bool_(True))):   # an integer for positive is refused by scikit-learn itself
+                cnt += 1
+                cond = "%s,no weights,flags as NumPy bool / integer" % ("q=0.5" if q == 0.5 else "q!=0.5")
+                desc = "d=%d y=%r q=%s fit_intercept=%r (%s) positive=%r (%s)" % (d, y.tolist(), q, fi, type(fi).__name__, pos, type(pos).__name__)
+                try:
+                    m = QuantileLinearRegression(quantile=q, max_iter=1000, delta=1e-4, fit_intercept=fi, positive=pos).fit(X, y)
+                    f = numpy.asarray(m.predict(X))
+                except Exception as e:
+                    bad("fit raises %s" % type(e).__name__, cond, "%s %s" % (str(e)[:200], desc))
+                    continue
+                Xm = numpy.hstack([X, numpy.ones((n, 1))]) if fi else X
+                L = pinball(y, f, q).sum()
+                Ls = lp_optimum(Xm, y, q, None, list(range(Xm.shape[1])) if pos else [])
+                tol = n * 1e-4 * 4
+                if Ls is not None and L > Ls + tol:
+                    bad("not a pinball-loss minimiser", cond, "loss %r optimum %r (tol %g) %s" % (L, Ls, tol, desc))
+                if not fi and float(numpy.ravel(m.intercept_)[0]) != 0.0:
+                    bad("fit_intercept=False gives a non-zero intercept", cond, "%r %s" % (m.intercept_, desc))
     # sign and location of the features: the same design mirrored (every value negative), centred (mixed signs) and shifted far
     # to the right, with and without positive=True, against the exact LP optimum over the same class
     for ys in case["ys"][:2]:
